@@ -498,6 +498,16 @@ def _ext_call(ev, dotted, args, kwargs, fr, node):
                                     'all': all, 'pow': pow, 'round': round}[short](*[a[1] for a in args]))
                 except Exception:
                     return T.raise_('TypeError')
+            if short in ('sum', 'min', 'max') and len(args) == 1 and not kwargs:
+                from .evalr import _fixed_items
+                items = _fixed_items(args[0])
+                if items is not None and items and all(T.is_const(i_) and isinstance(i_[1], int) and not isinstance(i_[1], bool) for i_ in items):
+                    return T.const({'sum': sum, 'min': min, 'max': max}[short]([i_[1] for i_ in items]))
+                if short == 'sum' and items is not None and 0 < len(items) <= 64 and all(T.type_of(i_) == 'int' for i_ in items):
+                    out = T.const(0)
+                    for i_ in items:
+                        out = T.add(out, i_)
+                    return out
             if short in ('all', 'any') and len(args) == 1 and not kwargs:
                 from .evalr import _fixed_items
                 items = _fixed_items(args[0])
